@@ -306,4 +306,6 @@ def rule_field_rows(ctx):
     rule_field_row(ctx, "O10.fieldrow", mode="errors")
 
 
-RULES = [rule_escapes, rule_oserror_stays_oserror, rule_range_constructors, rule_setters, rule_field_rows, rule_delimited_error_helper, rule_definite_assignment]
+from .common import rule_module_state  # noqa: E402
+
+RULES = [rule_escapes, rule_oserror_stays_oserror, rule_range_constructors, rule_setters, rule_field_rows, rule_delimited_error_helper, rule_definite_assignment, rule_module_state]
